@@ -155,7 +155,7 @@ Proof.
   - apply plain_mem_tok in Hp. destruct Hp as [t [-> [_ [H45 [_ [_ H94]]]]]]. eexists _, _. split; [reflexivity|]. split; assumption.
 Qed.
 
-Lemma cls_ops_none n f : cls_ops n f None = COk f.
+Lemma cls_ops_none ci n f : cls_ops ci n f None = COk f.
 Proof. destruct n; reflexivity. Qed.
 
 Definition item_valid (i : citem) : Prop :=
@@ -169,11 +169,11 @@ Qed.
 
 (** body of a class: plain items, then possibly a final dash, starting from accumulator [acc]
     after the (possibly empty) run of leading dashes has been stripped *)
-Lemma class_body L td acc0 ts0 :
+Lemma class_body ci L td acc0 ts0 :
   Forall item_fine L ->
   exists f,
     (let '(ts', acc) := strip_dashes (flat_map item_toks L ++ tail_toks td) acc0 in
-     match cls_union ts' acc with UOk g more => cls_ops ts0 g more | UErr => CErr | UUnm => CUnm end) = COk f /\
+     match cls_union ts' acc with UOk g more => cls_ops ci ts0 g more | UErr => CErr | UUnm => CUnm end) = COk f /\
     forall x, f x = acc0 x || existsb (fun i => citem_has i x) L || (td && N.eqb x 45).
 Proof.
   intros HL. destruct L as [|i L].
@@ -188,8 +188,8 @@ Proof.
     exists f. split; [reflexivity | exact Hx].
 Qed.
 
-Theorem class_benign_sem neg cits : class_benign cits = true -> Forall item_valid cits ->
-  exists f, class_sem neg cits = COk f /\ forall x, f x = existsb (fun i => citem_has i x) cits.
+Theorem class_benign_sem ci neg cits : class_benign cits = true -> Forall item_valid cits ->
+  exists f, class_sem ci neg cits = COk f /\ forall x, f x = existsb (fun i => citem_has i x) cits.
 Proof.
   intros Hb Hv. unfold class_sem. destruct cits as [|i l].
   - cbn. rewrite andb_false_r. eexists. split; [reflexivity | reflexivity].
@@ -201,7 +201,7 @@ Proof.
       rewrite flat_map_app, toks_tail.
       cbn [starts_caret is_raw]. change (N.eqb 45 94) with false. rewrite andb_false_r.
       cbn [strip_dashes is_raw]. rewrite N.eqb_refl.
-      destruct (class_body L td (cadd1 cempty 45) (length (TRaw 45 :: flat_map item_toks L ++ tail_toks td)) HF)
+      destruct (class_body ci L td (cadd1 cempty 45) (length (TRaw 45 :: flat_map item_toks L ++ tail_toks td)) HF)
         as [f [Hf Hx]].
       exists f. split; [exact Hf|]. intros x. rewrite Hx. cbn [existsb citem_has dash_item bmem_char].
       rewrite existsb_app. unfold cadd1, cempty. cbn [orb]. destruct td; cbn [tail_items existsb citem_has dash_item bmem_char andb];
@@ -215,7 +215,7 @@ Proof.
         - inversion HF as [|? ? Hi1 _]; subst. destruct (first_tok_fine i1 Hi1) as [t [r [Ht [_ H94]]]].
           cbn [flat_map]. rewrite Ht. cbn [app starts_caret]. exact H94. }
       rewrite Hcaret, andb_false_r.
-      destruct (class_body L td cempty (length (flat_map item_toks L ++ tail_toks td)) HF) as [f [Hf Hx]].
+      destruct (class_body ci L td cempty (length (flat_map item_toks L ++ tail_toks td)) HF) as [f [Hf Hx]].
       exists f. split; [exact Hf|]. intros x. rewrite Hx. rewrite existsb_app. unfold cempty. cbn [orb].
       destruct td; cbn [tail_items existsb citem_has dash_item bmem_char andb]; rewrite ?orb_false_r; reflexivity.
 Qed.
